@@ -92,7 +92,7 @@ def run_history_job(job):
         per_step = [pid_ for pid_ in prop_ids if spec.get('per_step') and pid_ in P.PROPS]
         if per_step:
             # reached-state templates are a bounded exploration on top of the complete one-step checks: at most this many histories each
-            cap = opts.get('history_cap', 600 if tier == 'quick' else 6000)
+            cap = opts.get('history_cap', 600 if tier == 'quick' else 1500)
             trails = list(ST.run_history(sc, spec, ireq, max_paths=cap, final_all=True, truncate=True))
             if sc.shape.get('history_truncated'):
                 res['paths']['template_truncated_at_%d_histories' % cap] += 1
